@@ -25,6 +25,7 @@ VARIABLES prog,      \* name the script is invoked by: "xzgrep" | "xzegrep" | "x
           gopts,     \* options appended to $grep, in order: [o, has, a]
           havePat,   \* $have_pat
           fl,        \* [l, L, h, H]: files_with_matches, files_without_matches, no_filename, with_filename
+                     \* (since the fix 7cf9214 -H resets no_filename and -h resets with_filename)
           files,     \* "$@" of the file loop
           k,         \* index of the file being processed
           res,       \* $res
@@ -112,10 +113,10 @@ Dispatch(o, has, a, rest) ==
     IF Unsupported(o)         THEN Stop(2, "unsupported") /\ UNCHANGED scanv
     ELSE IF SetsPat(o)        THEN Pass(o, has, a, rest, TRUE, fl)
     ELSE IF IsHelp(o)         THEN Stop(0, "help") /\ UNCHANGED scanv
-    ELSE IF IsWithFn(o)       THEN Consume(rest, [fl EXCEPT !.H = TRUE])
+    ELSE IF IsWithFn(o)       THEN Consume(rest, [fl EXCEPT !.H = TRUE, !.h = FALSE])        \* the last of -h/-H wins
     ELSE IF IsFilesWith(o)    THEN Consume(rest, [fl EXCEPT !.l = TRUE])
     ELSE IF IsFilesWithout(o) THEN Consume(rest, [fl EXCEPT !.L = TRUE])
-    ELSE IF IsNoFn(o)         THEN Pass(o, has, a, rest, havePat, [fl EXCEPT !.h = TRUE])
+    ELSE IF IsNoFn(o)         THEN Pass(o, has, a, rest, havePat, [fl EXCEPT !.h = TRUE, !.H = FALSE])
     ELSE IF IsVersion(o)      THEN Stop(0, "version") /\ UNCHANGED scanv
     ELSE Pass(o, has, a, rest, havePat, fl)
 
